@@ -569,6 +569,8 @@ def dec_req(req):
             fir._map_stmt(lambda e: e, s)
     if fir.find_unit(prog, fir.prog_main(prog)) is None:
         raise ValueError('no main unit')
+    if undeclared_names(prog):
+        raise ValueError('malformed program (undeclared name in the ORIGINAL, e.g. after shrinking)')
     return mode, sd, prog, inputs
 
 
